@@ -43,6 +43,42 @@ type input struct {
 	Ops   []op   `json:"ops"`
 }
 
+
+// ---------------------------------------------------------------- Coq printers
+// Lists and pairs are printed with constructors, not with the [a; b] / (a, b)
+// notations: coqc parses and elaborates constructor applications several times
+// faster.  Long lists are split into chunks joined by [app] to bound the nesting.
+
+func clist(items []string) string {
+	const chunk = 48
+	if len(items) > chunk {
+		return "(app " + clist(items[:chunk]) + " " + clist(items[chunk:]) + ")"
+	}
+	var b strings.Builder
+	for _, it := range items {
+		b.WriteString("(cons ")
+		b.WriteString(it)
+		b.WriteString(" ")
+	}
+	b.WriteString("nil")
+	for range items {
+		b.WriteString(")")
+	}
+	return b.String()
+}
+
+func clistOf[T any](xs []T, f func(T) string) string {
+	items := make([]string, len(xs))
+	for i, x := range xs {
+		items[i] = f(x)
+	}
+	return clist(items)
+}
+
+func cnlist(xs []uint64) string { return clistOf(xs, vh.N) }
+
+func cpair(a, b string) string { return "(pair " + a + " " + b + ")" }
+
 // ---------------------------------------------------------------- observation
 
 type snap struct {
@@ -95,8 +131,8 @@ func (s snap) coq() string {
 			runs = append(runs, run{a, 1})
 		}
 	}
-	rs := vh.ListOf(runs, func(r run) string { return vh.Pair(vh.N(r.slot), vh.N(r.n)) })
-	return vh.App("TblR", vh.N(s.version), vh.N(uint64(s.count)), rs, vh.ListOf(s.migs, migCoq))
+	rs := clistOf(runs, func(r run) string { return cpair(vh.N(r.slot), vh.N(r.n)) })
+	return vh.App("TblR", vh.N(s.version), vh.N(uint64(s.count)), rs, clistOf(s.migs, migCoq))
 }
 
 // rel renders the table s relative to the previous observation prev: SSame,
@@ -113,20 +149,20 @@ func (s snap) rel(prev snap) string {
 			}
 		}
 		if len(ch) <= 8+len(s.assign)/8 {
-			return vh.App("SDelta", vh.N(s.version), pairsCoq(ch), vh.ListOf(s.migs, migCoq))
+			return vh.App("SDelta", vh.N(s.version), pairsCoq(ch), clistOf(s.migs, migCoq))
 		}
 	}
 	return vh.App("SFull", s.coq())
 }
 
 func planCoq(p []hashslot.MigrationPlan) string {
-	return vh.ListOf(p, func(m hashslot.MigrationPlan) string {
+	return clistOf(p, func(m hashslot.MigrationPlan) string {
 		return vh.App("Move", vh.N(uint64(m.HashSlot)), vh.N(uint64(m.From)), vh.N(uint64(m.To)))
 	})
 }
 
 func pairsCoq(ps [][2]uint64) string {
-	return vh.ListOf(ps, func(p [2]uint64) string { return vh.Pair(vh.N(p[0]), vh.N(p[1])) })
+	return clistOf(ps, func(p [2]uint64) string { return cpair(vh.N(p[0]), vh.N(p[1])) })
 }
 
 func toMap(ps [][2]uint64) map[multiraft.SlotID]int {
@@ -186,9 +222,9 @@ func exec(t *hashslot.HashSlotTable, o op, st *stats) (string, string, *hashslot
 		for i, h := range hs {
 			xs[i] = uint64(h)
 		}
-		return vh.App("OOwners", vh.N(o.A)), vh.App("RList", vh.NList(xs)), t
+		return vh.App("OOwners", vh.N(o.A)), vh.App("RList", cnlist(xs)), t
 	case "assigned":
-		return "OAssigned", vh.App("RList2", vh.NList(u64s(t.AssignedSlotIDs())), vh.NList(u64s(hashslot.VerifTableActiveSlotIDs(t)))), t
+		return "OAssigned", vh.App("RList2", cnlist(u64s(t.AssignedSlotIDs())), cnlist(u64s(hashslot.VerifTableActiveSlotIDs(t)))), t
 	case "getmig":
 		m := t.GetMigration(o.HS)
 		r := vh.App("RMig", vh.None())
@@ -247,7 +283,7 @@ func exec(t *hashslot.HashSlotTable, o op, st *stats) (string, string, *hashslot
 		return c, vh.App("RPlan", planCoq(plan)), t
 	case "ideal":
 		m := hashslot.VerifIdealSlotCounts(int(o.A), slotIDs(o.Slots))
-		return vh.App("OIdeal", vh.N(o.A), vh.NList(o.Slots)), vh.App("RMap", pairsCoq(sortedPairs(m))), t
+		return vh.App("OIdeal", vh.N(o.A), cnlist(o.Slots)), vh.App("RMap", pairsCoq(sortedPairs(m))), t
 	case "select":
 		cur, tgt := toMap(o.Cur), toMap(o.Tgt)
 		var s multiraft.SlotID
@@ -256,17 +292,17 @@ func exec(t *hashslot.HashSlotTable, o op, st *stats) (string, string, *hashslot
 		} else {
 			s = hashslot.VerifSelectSmallestDeficitSlot(cur, tgt, slotIDs(o.Slots))
 		}
-		return vh.App("OSelect", vh.B(o.Apply), pairsCoq(o.Cur), pairsCoq(o.Tgt), vh.NList(o.Slots)), vh.App("RSlot", vh.N(uint64(s))), t
+		return vh.App("OSelect", vh.B(o.Apply), pairsCoq(o.Cur), pairsCoq(o.Tgt), cnlist(o.Slots)), vh.App("RSlot", vh.N(uint64(s))), t
 	case "buildinit":
 		tb, err := cstate.BuildInitialHashSlotTable(uint32(o.A), o.HS)
 		c := vh.App("OBuildInit", vh.N(uint64(uint32(o.A))), vh.N(uint64(o.HS)))
 		if err != nil {
 			return c, vh.App("RRanges", vh.None()), t
 		}
-		rs := vh.ListOf(tb.Ranges, func(r cstate.HashSlotRange) string {
+		rs := clistOf(tb.Ranges, func(r cstate.HashSlotRange) string {
 			return vh.App("Rng", vh.N(uint64(r.From)), vh.N(uint64(r.To)), vh.N(uint64(r.SlotID)))
 		})
-		return c, vh.App("RRanges", vh.Some(vh.Pair(vh.N(uint64(tb.SlotCount)), rs))), t
+		return c, vh.App("RRanges", vh.Some(cpair(vh.N(uint64(tb.SlotCount)), rs))), t
 	}
 	panic("unknown op kind " + o.K)
 }
@@ -303,29 +339,41 @@ func run(in input) vh.Result {
 	if kind == "" {
 		kind = "corpus"
 	}
-	class := fmt.Sprintf("%s,count=%s", kind, cbucket(in.Count))
+	// class = generator kind, the dominant thing the history exercised, table size
+	feat := "-"
+	switch {
+	case st.plans > 0 && st.moves > 0:
+		feat = "plan-moves"
+	case st.plans > 0:
+		feat = "plan-empty"
+	case st.codecMig > 0:
+		feat = "codec+mig"
+	case st.decOK > 0 && st.decErr > 0:
+		feat = "dec-ok+err"
+	case st.decOK > 0:
+		feat = "dec-ok"
+	case st.decErr > 0:
+		feat = "dec-err"
+	case st.codec > 0:
+		feat = "codec"
+	case st.mig > 0:
+		feat = "mig"
+	}
+	size := "small"
+	if in.Count > 64 {
+		size = "large"
+	}
+	if in.Count == 0 {
+		size = "empty"
+	}
+	class := fmt.Sprintf("%s[%s]%s", kind, feat, size)
 	return vh.Result{
-		Coq: vh.App("C20Case", vh.N(uint64(in.Count)), phys, init, vh.List(steps)),
+		Coq: vh.App("C20Case", vh.N(uint64(in.Count)), phys, init, clist(steps)),
 		Obs: map[string]any{"final_version": prev.version, "ops": len(in.Ops), "plans": st.plans, "moves": st.moves,
 			"migration_starts": st.mig, "codec_roundtrips": st.codec, "codec_with_migrations": st.codecMig,
 			"decode_ok": st.decOK, "decode_err": st.decErr, "final_migrations": len(prev.migs)},
 		Class:   class,
 		Trivial: len(in.Ops) == 0,
-	}
-}
-
-func cbucket(c uint16) string {
-	switch {
-	case c == 0:
-		return "0"
-	case c <= 16:
-		return "1-16"
-	case c <= 64:
-		return "17-64"
-	case c <= 1024:
-		return "65-1024"
-	default:
-		return "1025+"
 	}
 }
 
@@ -747,7 +795,6 @@ func emitConsts(w io.Writer) {
 	fmt.Fprintf(w, "(* len(Encode) of a 1-hash-slot table without / with one migration *)\n")
 	fmt.Fprintf(w, "Definition enc_len_1_0 : N := %d.\nDefinition enc_len_1_1 : N := %d.\n", empty, full)
 	fmt.Fprintf(w, "(* controller/state.CurrentHashSlotTableVersion *)\nDefinition ctl_table_version : N := %d.\n", cstate.CurrentHashSlotTableVersion)
-	_ = strings.TrimSpace
 }
 
 func main() {
